@@ -497,6 +497,36 @@ func dischargeAll(v *V, opts SolveOpts) {
 	if w2 < 1 {
 		w2 = 1
 	}
+	{
+		// the sliced script once more, with every solver and a longer limit: the 3 s of the slice stage
+		// are tight when 16 queries run side by side. Only "unsat" is accepted (any subset of the
+		// hypotheses is sound for that); everything else goes on to the full path condition.
+		var again []*Obl
+		for _, o := range rest {
+			if o.Expect == "unsat" {
+				again = append(again, o)
+			}
+		}
+		stage(again, w2, func(o *Obl) {
+			s, sc := scripts(o, true)
+			to := 15 * time.Second
+			if to > opts.Timeout {
+				to = opts.Timeout
+			}
+			r := race(s, sc, to, nil)
+			o.TimeS += r.dur.Seconds()
+			if r.status == "unsat" {
+				o.Status, o.Solver, o.Output, o.Stage = "unsat", r.solver, "", "slice-long"
+			}
+		})
+		var rest2 []*Obl
+		for _, o := range rest {
+			if !(o.Expect == "unsat" && o.Status == "unsat") {
+				rest2 = append(rest2, o)
+			}
+		}
+		rest = rest2
+	}
 	stage(rest, w2, func(o *Obl) {
 		// second stage: full path condition (the sliced one may have dropped the reason a path is infeasible)
 		s, sc := scripts(o, false)
